@@ -34,6 +34,7 @@ def run(chk):
         _, expect = W.spec_output(P, "gulp_table", [W.param("potentials"), W.nsym("cutoff"), W.nsym("nr")])
         I, found = W.tabulation_output(P, "GULP_PairTabulation", elem)
         W.compare_trees(chk, "C19.G1", "GULP_PairTabulation.write", I, found, expect)
+        W.second_write(chk, "C19.G1", "GULP_PairTabulation.write", I, expect)
         I2 = W.make_interp(P, elem=elem)
         fp = BufV("fp", is_file=True)
         I2.run(P.func("atsim.potentials", "writePotentials"), [Const("GULP"), W.param("potentials"), W.nsym("cutoff"), W.nsym("nr"), fp])
